@@ -578,7 +578,7 @@ def run_shard(ctx, args):
         try:
             inst = instance_case(ctx, desc)
         except ValueError as e:
-            if "does not fit" in str(e) or "must be in" in str(e):
+            if wb.outside_domain(desc):
                 continue
             raise
         if it % 3 == 0 and wb.n_items(desc) <= 130:
